@@ -188,6 +188,7 @@ def wl_counting(ctx, rng, case):
     removes = 0
     eaten = 0  # counting Bloom only: amount taken out by requests larger than what the filter held for the key
     for step in range(rng.randint(3, 30)):
+        bl.noise_reads(ctx, rng, f, keys)
         r = rng.random()
         kk = rng.choice(keys)
         if big and kind == "CountingBloomFilter" and r >= 0.6:
